@@ -286,3 +286,86 @@ pub async fn pool_step_q(pool_size: usize, slots: &[String], busy: &[usize], que
     }
     out
 }
+
+struct RecordingHooks(Arc<Mutex<Vec<&'static str>>>);
+impl crate::factory::FactoryLifecycleHooks<u64, u64> for RecordingHooks {
+    fn on_factory_started(&self, _: ActorRef<FactoryMessage<u64, u64>>) -> futures::future::BoxFuture<'_, Result<(), ActorProcessingErr>> {
+        self.0.lock().unwrap().push("started");
+        Box::pin(async { Ok(()) })
+    }
+    fn on_factory_stopped(&self) -> futures::future::BoxFuture<'_, Result<(), ActorProcessingErr>> {
+        self.0.lock().unwrap().push("stopped");
+        Box::pin(async { Ok(()) })
+    }
+    fn on_factory_draining(&self, _: ActorRef<FactoryMessage<u64, u64>>) -> futures::future::BoxFuture<'_, Result<(), ActorProcessingErr>> {
+        self.0.lock().unwrap().push("draining");
+        Box::pin(async { Ok(()) })
+    }
+}
+
+/// One message handled by the real `Factory::handle` on a two-worker FactoryState: `draining` = already draining, `busy` = workers with a job (key 5)
+/// in flight, `queued` = jobs waiting in the factory queue. msg: "drain" | "dispatch" | "finished:<wid>".
+/// Returns "stop=<0|1>;state=<NotDraining|Draining|Drained>;hooks=<..>;queue=<n>;rejected=<0|1>;discards=<reasons>"
+pub async fn drain_step(draining: bool, busy: &[usize], queued: usize, msg: &str) -> String {
+    use crate::factory::worker::verif_probe as wp;
+    let (me, _mh) = Actor::spawn(None, ProbeFactoryActor, ()).await.unwrap();
+    let mut pool = HashMap::new();
+    let mut worker_by_actor = HashMap::new();
+    for w in 0..2usize {
+        let curr: Vec<u64> = if busy.contains(&w) { vec![5] } else { vec![] };
+        let (rec, _got, _r) = wp::record_logging_at(w, &[], &curr, false).await;
+        worker_by_actor.insert(rec.actor.get_id(), w);
+        pool.insert(w, rec);
+    }
+    let hooks_log = Arc::new(Mutex::new(Vec::new()));
+    let rec = Arc::new(wp::Recorder(Mutex::new(Vec::new())));
+    let mut queue = DefaultQueue::<u64, u64>::default();
+    for i in 0..queued {
+        queue.push_back(Job { key: 6, msg: 200 + i as u64, options: JobOptions::default(), accepted: None });
+    }
+    let mut state: FactoryState<u64, u64, ProbeWorker, (), ScriptRouter, DefaultQueue<u64, u64>> = FactoryState {
+        factory_name: "verif".to_string(),
+        worker_builder: Box::new(ProbeBuilder),
+        pool_size: 2,
+        pool,
+        worker_by_actor,
+        stats: None,
+        router: ScriptRouter { script: Default::default(), choose: Default::default(), routed: Arc::new(Mutex::new(Vec::new())) },
+        queue,
+        discard_handler: Some(rec.clone()),
+        discard_settings: DiscardSettings::None,
+        drain_state: if draining { DrainState::Draining } else { DrainState::NotDraining },
+        dead_mans_switch: None,
+        dead_mans_check: None,
+        capacity_controller: None,
+        lifecycle_hooks: Some(Box::new(RecordingHooks(hooks_log.clone()))),
+    };
+    let (tx, rx) = crate::concurrency::oneshot();
+    let m = match msg {
+        "drain" => FactoryMessage::DrainRequests,
+        "dispatch" => FactoryMessage::Dispatch(Job { key: 5, msg: 100, options: JobOptions::default(), accepted: Some(tx.into()) }),
+        other => FactoryMessage::Finished(other.strip_prefix("finished:").unwrap().parse().unwrap(), 5),
+    };
+    let f: Factory<u64, u64, (), ProbeWorker, ScriptRouter, DefaultQueue<u64, u64>> = Factory::default();
+    let _ = f.handle(me.clone(), m, &mut state).await;
+    for _ in 0..50 {
+        tokio::task::yield_now().await;
+    }
+    crate::concurrency::sleep(Duration::from_millis(20)).await;
+    let stopped = !matches!(me.get_status(), crate::ActorStatus::Running | crate::ActorStatus::Upgrading);
+    let rejected = matches!(crate::concurrency::timeout(Duration::from_millis(5), rx).await, Ok(Ok(Some(_))));
+    let out = format!(
+        "stop={};state={:?};hooks={};queue={};rejected={};discards={}",
+        stopped as u8,
+        state.drain_state,
+        hooks_log.lock().unwrap().join("+"),
+        state.queue.len(),
+        rejected as u8,
+        wp::recorded(&rec).iter().map(|(r, k)| format!("{r}:{k}")).collect::<Vec<_>>().join("+")
+    );
+    for (_, w) in state.pool.drain() {
+        w.actor.stop(None);
+    }
+    me.stop(None);
+    out
+}
